@@ -50,7 +50,7 @@ def gen_history(rnd, mems, nops):
         ln = rnd.choice(LENS + [rnd.randint(0, min(600, size))] * 4)
         ln = min(ln, size)
         off = rnd.randint(0, size - ln)
-        addr = mems[m]['origin'] + off
+        addr = min(mems[m]['origin'] + off, 0xFFFFFFFF)      # (an address is a 32-bit number also for an empty request)
         if rnd.random() < 0.5:
             ops.append({'k': 'read', 'm': m, 'addr': addr, 'len': ln, 'wait': rnd.random() < 0.6})
         else:
@@ -367,20 +367,26 @@ def judge(desc, k, res, ctx, rp):
                     if n <= 0:
                         break
                 want.append(chunks)
-        # the device sequence must be a concatenation of (prefixes of) the wanted chunk lists in order, dedup'ed for retries
-        dedup = []
+        # the device sequence must be a concatenation of (prefixes of) the wanted chunk lists in order; a chunk may be seen
+        # again right away when the fault model retransmits.  Two different writes may begin with the same chunk, so this
+        # is decided by simulating all readings (state = last chunk consumed), not by collapsing equal neighbours.
+        dedup = list(seq)
+        retries = fault in ('dup', 'dupdelay')
+        states = {(-1, 0)}
         for x in seq:
-            if not dedup or dedup[-1] != x:
-                dedup.append(x)
-        pos = 0
-        okorder = True
-        for chunks in want:
-            i = 0
-            while pos < len(dedup) and i < len(chunks) and dedup[pos] == chunks[i]:
-                pos += 1
-                i += 1
-        if pos != len(dedup) and fault in ('none', 'dup', 'dupdelay'):
-            okorder = False
+            nxt = set()
+            for (w, i) in states:
+                if w >= 0 and retries and want[w][i] == x:
+                    nxt.add((w, i))
+                if w >= 0 and i + 1 < len(want[w]) and want[w][i + 1] == x:
+                    nxt.add((w, i + 1))
+                for w2 in range(w + 1, len(want)):
+                    if want[w2][0] == x:
+                        nxt.add((w2, 0))
+            states = nxt
+            if not states:
+                break
+        okorder = bool(states) or fault not in ('none', 'dup', 'dupdelay')
         if not okorder:
             V('mem:writes-reached-device-out-of-order-or-non-contiguous', {'mem': mid, 'device_sequence': dedup[:12],
                                                                          'submitted': want[:4]})
